@@ -6,6 +6,7 @@ from ..effects import fmt_obj
 from ..tables import base_name
 from .. import shared, memrules
 
+RETRY_INLINED = True
 LEVEL = 'proof'
 
 
